@@ -328,14 +328,36 @@ def composed_case(ctx, rng, idx):
     if rng.random() < 0.3 and not any(l.kind == 'H' for l in leaves):
         n_conf = int(rng.integers(1, 6))
     feats['n_ids_configured'] = n_conf
-    try:
-        model = GP.build_chi(leaves, n_conf, force_composed=force)
-    except Exception as e:      # noqa
-        ctx.violation_exc('construction_raises', e, {'case': feats}, feats)
-        return
     _, x, cov = GP.hierarchy_vector(rng, leaves, n_ids)
     bottom, top = x[:h.n_bottom], x[h.n_bottom:]
     free = np.ones(len(top), dtype=bool)
+    # a sub-model may itself be a reduced model with some or ALL of its
+    # population parameters fixed (a distribution known from the literature)
+    sub_fixed = len(leaves) > 1 and not reduced and rng.random() < 0.25
+    feats['sub_model_with_fixed_parameters'] = sub_fixed
+    try:
+        if sub_fixed:
+            models = [GP.build_chi_leaf(l, n_conf) for l in leaves]
+            j = int(rng.integers(len(leaves)))
+            off = sum(l.n_top(n_ids) for l in leaves[:j])
+            nt = leaves[j].n_top(n_ids)
+            sub_names = models[j].get_parameter_names()
+            pick = np.arange(nt) if rng.random() < 0.5 else \
+                rng.permutation(nt)[:int(rng.integers(1, nt + 1))]
+            feats['sub_model_all_fixed'] = len(pick) == nt
+            if len(set(sub_names)) == len(sub_names) == nt:
+                red_sub = chi.ReducedPopulationModel(models[j])
+                red_sub.fix_parameters({
+                    sub_names[i]: float(top[off + i]) for i in pick})
+                models[j] = red_sub
+                free[off + np.asarray(pick)] = False
+            model = chi.ComposedPopulationModel(models)
+            model.set_n_ids(n_conf)
+        else:
+            model = GP.build_chi(leaves, n_conf, force_composed=force)
+    except Exception as e:      # noqa
+        ctx.violation_exc('construction_raises', e, {'case': feats}, feats)
+        return
     names = model.get_parameter_names()
     if reduced:
         model = chi.ReducedPopulationModel(model)
@@ -344,6 +366,20 @@ def composed_case(ctx, rng, idx):
         if len(set(names)) == len(names) and len(fi):
             model.fix_parameters({names[i]: float(top[i]) for i in fi})
             free[fi] = False
+            if any(l.kind == 'H' for l in leaves) and rng.random() < 0.5 \
+                    and n_conf == n_ids:
+                # the model is resized for another number of individuals
+                # and back (as a second data set would do): the parameters
+                # stay fixed by name at their values
+                feats['resized_and_back'] = True
+                try:
+                    model.compute_log_likelihood(
+                        top[free], np.ones((n_ids, h.n_dim)),
+                        **({'covariates': cov} if h.n_cov else {}))
+                except Exception:   # noqa
+                    pass
+                model.set_n_ids(n_ids + 1)
+                model.set_n_ids(n_ids)
     c = rng.normal(size=(n_ids, h.n_dim)) if upstream else \
         np.zeros((n_ids, h.n_dim))
     kw = {'covariates': cov} if h.n_cov else {}
